@@ -178,9 +178,13 @@ func c13(c *Ctx) {
 			for _, t := range f.Templates {
 				rc.Names = append(rc.Names, t.Name)
 			}
-			n := c.N(600, 4000)
+			n := c.N(600, 3000)
 			for k := 0; k < n; k++ {
-				rc.Jobs = append(rc.Jobs, rt.Job{Name: rc.Names[c.R.Intn(len(rc.Names))], Env: c.R.Intn(len(rc.Envs))})
+				e := c.R.Intn(len(rc.Envs))
+				if e == len(rc.Envs)-1 && c.R.Intn(8) != 0 {
+					e = c.R.Intn(len(rc.Envs) - 1) // the 96 KB environment in about one render of seventy: enough to grow the pooled buffers
+				}
+				rc.Jobs = append(rc.Jobs, rt.Job{Name: rc.Names[c.R.Intn(len(rc.Names))], Env: e})
 			}
 			return rc
 		}
